@@ -19,7 +19,8 @@ def run_rules(repo, prop, tier):
         rule, clause = entry[0], entry[1]
         kwargs = entry[2] if len(entry) > 2 else {}
         try:
-            got = rule(repo, clause, **kwargs)
+            from .core import call_rule
+            got = call_rule(rule, repo, clause, **kwargs)
             if not got:
                 raise AnalysisError("rule %s produced no obligation for %s (vacuous pass refused)" % (rule.__name__, prop))
             obs.extend(got)
